@@ -523,7 +523,7 @@ func fact(k kernel) (bool, string, error) {
 		// goroutine's body does not mention any other slice holding the key
 		copied, goSeen, ok := false, false, false
 		for _, st := range fd.Body.List {
-			if as, isA := st.(*ast.AssignStmt); isA && text(as) == "key = append([]byte(nil), key...)" {
+			if as, isA := st.(*ast.AssignStmt); isA && (text(as) == "key = append([]byte(nil), key...)" || text(as) == "key = bytes.Clone(key)") {
 				copied = true
 			}
 			if _, isGo := st.(*ast.GoStmt); isGo {
@@ -541,8 +541,11 @@ func fact(k kernel) (bool, string, error) {
 		ast.Inspect(fd.Body, func(x ast.Node) bool {
 			switch y := x.(type) {
 			case *ast.AssignStmt:
-				if text(y) == "key := make([]byte, len(k))" {
+				switch text(y) {
+				case "key := make([]byte, len(k))":
 					mk = true
+				case "key := append([]byte(nil), k...)", "key := bytes.Clone(k)", "key := append(make([]byte, 0, len(k)), k...)":
+					mk, cp = true, true // other spellings of "a fresh slice with the key's bytes"
 				}
 			case *ast.CallExpr:
 				if text(y) == "copy(key, k)" {
